@@ -42,6 +42,9 @@ type c04Case struct {
 	DeadlineUs int `json:",omitempty"`
 	// Creds: the call carries per-RPC credentials (their callback is handed the call's context)
 	Creds bool `json:",omitempty"`
+	// Cause (cancel mode): the caller's context was made with context.WithCancelCause and is cancelled with a
+	// cause of its own; the outcome is still a Canceled status
+	Cause bool `json:",omitempty"`
 }
 
 // manualCtx is a context whose end the harness decides: Done is closed by fire(), Err is
@@ -54,10 +57,20 @@ type manualCtx struct {
 	err      atomic.Value
 	deadline time.Time
 	isDL     bool
+	// cause mode: the context is, underneath, one made by context.WithCancelCause and is ended with a cause
+	// of the application's own (context.Cause(ctx) is that error, ctx.Err() still context.Canceled)
+	causeCancel context.CancelCauseFunc
 }
+
+var errC04Cause = errors.New("shutting down")
 
 func newManualCtx(parent context.Context, deadlineMode bool) *manualCtx {
 	return &manualCtx{Context: parent, done: make(chan struct{}), deadline: time.Now().Add(time.Hour), isDL: deadlineMode}
+}
+
+func newManualCauseCtx(parent context.Context) *manualCtx {
+	cctx, cancel := context.WithCancelCause(parent)
+	return &manualCtx{Context: cctx, done: make(chan struct{}), deadline: time.Now().Add(time.Hour), causeCancel: cancel}
 }
 
 func (m *manualCtx) Done() <-chan struct{} { return m.done }
@@ -75,6 +88,9 @@ func (m *manualCtx) Deadline() (time.Time, bool) {
 }
 func (m *manualCtx) fire() {
 	m.once.Do(func() {
+		if m.causeCancel != nil {
+			m.causeCancel(errC04Cause)
+		}
 		if m.isDL {
 			m.err.Store(context.DeadlineExceeded)
 		} else {
@@ -308,6 +324,9 @@ func c04Resp(i int) *pb.Message { return &pb.Message{Count: int32(100 + i), Payl
 func c04Run(c *c04Case, carrier string, rep int) *c04Obs {
 	obs := &c04Obs{Rep: rep, HandlerSawDone: "n/a"}
 	mctx := newManualCtx(context.Background(), c.Mode == "deadline")
+	if c.Cause && c.Mode == "cancel" {
+		mctx = newManualCauseCtx(context.Background())
+	}
 	ctl := &c04Ctl{c: c, ctx: mctx, holdServer: make(chan struct{})}
 	if strings.HasPrefix(c.Point, "io:") {
 		fmt.Sscanf(c.Point, "io:%d", &ctl.ioAt)
@@ -783,6 +802,9 @@ func propC04(c c04Case) *Outcome {
 	if c.Creds {
 		o.class("with-per-rpc-credentials")
 	}
+	if c.Cause {
+		o.class("cancel-with-cause")
+	}
 	pclass := c.Point
 	if i := strings.LastIndex(pclass, ":"); i > 0 && !strings.HasPrefix(pclass, "hook:") {
 		pclass = pclass[:i]
@@ -901,6 +923,7 @@ func genC04(t *rapid.T) c04Case {
 	}
 	c.Final = rapid.SampledFrom([]uint32{0, 0, 0, 9}).Draw(t, "final")
 	c.Creds = rapid.IntRange(0, 3).Draw(t, "creds") == 0
+	c.Cause = c.Mode == "cancel" && rapid.IntRange(0, 2).Draw(t, "cause") == 0
 	if clientStreaming(c.Kind) && c.Carrier == cInproc && rapid.IntRange(0, 9).Draw(t, "extra") == 0 {
 		c.Attitude = "extra-recv"
 	}
